@@ -59,7 +59,8 @@ DEFECT_KEY_BOX = "c13:box-box:contact-distance-not-geomdistance"
 DEFECT_KEY_CCD = "c13:geomdist:ccd-coincident-centres-asymmetric"
 DEFECT_KEY_CYL = "c13:plane-cylinder:flat-disk-threshold"
 DEFECT_KEY_CAPBOX = "c13:capsule-box:axis-through-box-reported-separated"
-DEFECT_KEYS = (DEFECT_KEY, DEFECT_KEY_CAPS, DEFECT_KEY_BOX, DEFECT_KEY_CCD, DEFECT_KEY_CYL, DEFECT_KEY_CAPBOX)
+DEFECT_KEY_FLIP = "c13:direction:ccd-normal-flipped-at-margin-boundary"
+DEFECT_KEYS = (DEFECT_KEY, DEFECT_KEY_CAPS, DEFECT_KEY_BOX, DEFECT_KEY_CCD, DEFECT_KEY_CYL, DEFECT_KEY_CAPBOX, DEFECT_KEY_FLIP)
 
 PLANE, SPHERE, CAPSULE, ELLIPSOID, CYLINDER, BOX = (enums.E("mjGEOM_" + n) for n in
                                                     ("PLANE", "SPHERE", "CAPSULE", "ELLIPSOID", "CYLINDER", "BOX"))
@@ -679,10 +680,14 @@ def judge_scene(line, out, dev):
         if pair[0] == PLANE:
             pn = col(g1["mat"], 2)
             chk("planenormal", max(abs(n[i] - pn[i]) for i in range(3)), 1e-12, "normal of a plane contact is not the plane normal")
-        elif not degen and ci == imin and not capbox_zone:
+        elif not degen and (ci == imin or not exact) and not capbox_zone:
             cd = sub(g2["pos"], g1["pos"])
             if c["dist"] > 1e-6 or pair == (SPHERE, SPHERE):
-                if not dot(n, cd) > 0:
+                if not dot(n, cd) > 0 and not exact and abs(c["dist"] - mg) < 1e-4:
+                    # mjc_Convex inflates both geoms by margin/2 and runs EPA: at dist ~ margin the inflated geoms barely touch
+                    fails.append((DEFECT_KEY_FLIP, "%s: contact at the margin boundary (dist %.17g, margin+gap %.17g) has its normal "
+                                  "pointing from the second geom to the first (n.(c2-c1) = %.3g)" % (pname, c["dist"], mg, dot(n, cd))))
+                elif not dot(n, cd) > 0:
                     fails.append(("c13:direction:" + pname, "normal does not point from the first geom to the second (n.(c2-c1) = %.3g)" % dot(n, cd)))
         if pair == (PLANE, BOX):
             w2 = add(c["pos"], scl(n, c["dist"] / 2))
@@ -740,7 +745,7 @@ def judge_scene(line, out, dev):
                 "fromto of the swapped call is not the reversed segment")
     if dmin is not None and distmax >= mg and not ccd_pen:
         before = len(fails)
-        chk("geomdist-contact", abs(gd["d01"] - min(dmin, distmax)), gtol if exact else TOL_CCD_CONTACT,
+        chk("geomdist-contact", abs(gd["d01"] - min(dmin, distmax)), gtol if exact else (TOL_CCD if pair == (BOX, BOX) else TOL_CCD_CONTACT),
             "mj_geomDistance differs from the smallest contact distance (geomDistance %.17g, contact %.17g)" % (gd["d01"], dmin))
         if len(fails) > before and (cap_zone_gd or cap_zone_contact):
             del fails[before:]
